@@ -304,6 +304,16 @@ class Trace:
                         c, ty, sq = int(f[1]), f[2], int(f[4].split(":")[0])
                         tk = f[3][2:]
                         stamps[(c, sq)] = None if tk == "-" else int(tk)
+                        # the event depends on everything replicated to this client so far (this frame's update message included)
+                        last_upd = None
+                        for l2 in block:
+                            if l2.startswith("upd %d " % c) and "UNDECODABLE" not in l2:
+                                last_upd = int(kv_field(l2, "t"))
+                        if last_upd is None and upd_sent.get(c):
+                            last_upd = upd_sent[c][-1]
+                        if ty != "SEI" and tk != "-" and last_upd is not None and int(tk) != last_upd:
+                            self.add("C04", i, "event %d for client %d is stamped with update tick %s although the last update message sent to that client has tick %d: "
+                                               "the client may hand it to game logic %s" % (sq, c, tk, last_upd, "before it applied that update" if int(tk) < last_upd else "only after an update that may never come"))
                         if c not in authorized and ty != "SEI":
                             self.add("C07", i, "event that is not independent sent to a client that is not authorized: %s" % l)
                         em = emitted.get(sq)
